@@ -108,10 +108,10 @@ Definition hsla_of_hwba (c : hwba) : hsla :=
 
 Definition rgba_of_hwba (c : hwba) : rgba := rgba_of_hsla (hsla_of_hwba c).
 
-(* max_min_largest *)
+(* max_min_largest (fix e465284: ties go to the first of the equal channels) *)
 Definition max_min_largest (a b c : f64) : f64 * f64 * Z :=
-  let '(mx, lg) := if fgt a b && fgt a c then (a, 0)
-                   else if fgt b a && fgt b c then (b, 1) else (c, 2) in
+  let '(mx, lg) := if fge a b && fge a c then (a, 0)
+                   else if fge b c then (b, 1) else (c, 2) in
   (mx, fmin (fmin a b) c, lg).
 
 Definition hsla_of_rgba (c : rgba) : hsla :=
